@@ -6,6 +6,7 @@ import (
 	"fmt"
 	"math"
 	"math/rand"
+	"runtime"
 	"strings"
 	"sync"
 	"sync/atomic"
@@ -99,6 +100,41 @@ func (x *xExec) work(op XOp) []bigbuff.ExclusiveOption {
 		ctl.Gate("drv.work.run")
 		if op.Mode == "early" {
 			res()
+		}
+		if op.Mode == "multi" {
+			// resolve is called by three goroutines at the same instant, with different outcomes: exactly one of them
+			// counts, every caller of this execution gets that one, and none of the calls panics
+			r.Add(rec.Ev{"ev": "wresolved", "e": e})
+			var start atomic.Bool
+			var ready atomic.Int32
+			var wg sync.WaitGroup
+			panics := make([]string, 3)
+			for k := 0; k < 3; k++ {
+				wg.Add(1)
+				go func(k int) {
+					defer wg.Done()
+					ready.Add(1)
+					for !start.Load() {
+					}
+					panics[k] = safeCall(func() {
+						if k == 1 {
+							resolve(nil, execErr(e))
+						} else {
+							resolve(e, nil)
+						}
+					})
+				}(k)
+			}
+			for ready.Load() < 3 {
+				runtime.Gosched()
+			}
+			start.Store(true)
+			wg.Wait()
+			for _, p := range panics {
+				if p != "" {
+					r.Add(rec.Ev{"ev": "resolvepanic", "e": e, "msg": p})
+				}
+			}
 		}
 		if op.Held {
 			ctl.Gate("drv.work.hold")
@@ -283,6 +319,9 @@ func genExclScenario(rng *rand.Rand, profile, mode string) any {
 				switch a := rng.Intn(8); {
 				case a < 2:
 					op.Flip = a == 0
+					if rng.Intn(2) == 0 {
+						op.Mode = "multi"
+					}
 				default:
 					op.Api = []string{"call", "callafter", "async", "afterasync", "start", "startafter"}[a-2]
 					if (op.Api == "callafter" || op.Api == "afterasync" || op.Api == "startafter") && rng.Intn(2) == 0 {
@@ -342,6 +381,9 @@ func genExclScenario(rng *rand.Rand, profile, mode string) any {
 				op.Flip = rng.Intn(2) == 0
 				if rng.Intn(3) == 0 {
 					op.RateUs = []int{200, 500, 1500}[rng.Intn(3)]
+				}
+				if op.Mode != "never" && rng.Intn(4) == 0 {
+					op.Mode, op.Fail = "multi", false // several goroutines resolve at once, with different outcomes
 				}
 			default:
 				op.Api = []string{"call", "callafter", "async", "afterasync", "start", "startafter"}[a-4]
